@@ -225,7 +225,7 @@ func readLog(data []byte, drw *dialect.ReadWriter) ([]*tlog.Entry, error) {
 
 func TestC20Logs(t *testing.T) {
 	rec := evid.New(t, "C20", "generated entry sequences (0..30 entries: v1/v2/signed frames, raw and dialect messages, times on both sides of the epoch with sub-microsecond parts, unencodable entries interleaved) written with tlog.Writer; oracles: file bytes == concatenation of BE64(floor(t,us)) ++ reference frame bytes, unencodable entries return an error and leave the file untouched, read-back equals what was written, every truncation point of the file yields exactly the complete entries before the cut and then an error, a failing io.Writer is reported; non-trivial = >=3 entries of mixed versions with a negative or sub-us timestamp, or an unencodable entry between good ones; distinct by hash of the file")
-	rec.Require("cut-in-timestamp", "cut-in-header", "cut-in-payload", "cut-in-signature", "bad-entry-between-good", "negative-time", "sub-us", "writer-fault", "dialect")
+	rec.Require("cut-in-timestamp", "cut-in-header", "cut-in-payload", "cut-in-signature", "bad-entry-between-good", "negative-time", "sub-us", "writer-fault", "dialect", "longer-than-reader-window")
 	dpool := pool(t)
 	errBoom := errors.New("injected write error")
 	evid.Check(t, rec, evid.N(4000, 12000), func(t *rapid.T) {
@@ -236,7 +236,10 @@ func TestC20Logs(t *testing.T) {
 			drw = di.rw
 		}
 		n := rapid.IntRange(0, 30).Draw(t, "n")
-		if rapid.IntRange(0, 3).Draw(t, "short") > 0 && n > 6 {
+		long := rapid.IntRange(0, 5).Draw(t, "long_log") == 0 // beyond the reader's 4096-byte window
+		if long {
+			n = rapid.IntRange(30, 70).Draw(t, "n_long")
+		} else if rapid.IntRange(0, 3).Draw(t, "short") > 0 && n > 6 {
 			n = n % 7
 		}
 		fw := &failingWriter{}
@@ -317,7 +320,16 @@ func TestC20Logs(t *testing.T) {
 			ends[i+1] = ends[i] + len(e.bytes)
 		}
 		cutClasses := map[string]int{}
-		for c := 0; c < len(file); c++ {
+		step := 1
+		if len(file) > 3000 {
+			step = 1 + len(file)/600 // long logs: a sample of cuts, always including the window boundary region
+		}
+		for c := 0; c < len(file); c += step {
+			if step > 1 && c > 4000 && c < 4200 {
+				step = 1
+			} else if step == 1 && len(file) > 3000 && c >= 4200 {
+				step = 1 + len(file)/600
+			}
 			k := 0
 			for k < len(good) && ends[k+1] <= c {
 				k++
@@ -400,6 +412,9 @@ func TestC20Logs(t *testing.T) {
 		}
 		if di != nil {
 			cls = append(cls, "dialect")
+		}
+		if len(file) > 4096 {
+			cls = append(cls, "longer-than-reader-window")
 		}
 		nt := badBetween || (len(good) >= 3 && len(versions) == 2 && (negative || subus))
 		rec.Case(nt, evid.Hash(file, []byte(fmt.Sprint(n))), cls...)
